@@ -151,6 +151,81 @@ Check format_reads_what_it_writes :
   /\ (ssw_list_eq_origins save_switches_now = true -> ssw_origins_written save_switches_now = true).
 Print Assumptions format_reads_what_it_writes.
 
+(* (7c) every flow survives (property C10's "saving preserves all flows"): after the
+   load, the flow registered under each name is the normal form of the flow that was
+   registered under it — provided named_flows holds no entry under the current flow's
+   own name (the stale entry of D12; with the alias switch off it is never created) *)
+Theorem save_preserves_all_flows :
+  forall panics sw t w,
+    wf_world_b w = true -> no_alias_entry_b (w_state w) = true ->
+    root_of t = root_of w ->
+    vs_defaults (ss_vars (w_state t)) = vs_defaults (ss_vars (w_state w)) ->
+    exists j w', write_state panics sw w = Ok j
+      /\ load_state panics sw t j = (OOk tt, w')
+      /\ forall k f, flow_of (w_state w) k = Some f ->
+           flow_of (w_state w') k = Some (norm_flow sw (root_of w) (fl_cs (ss_flow (w_state w))) k f).
+Proof. exact save_preserves_all_flows_lemma. Qed.
+Check save_preserves_all_flows :
+  forall panics sw t w,
+    wf_world_b w = true -> no_alias_entry_b (w_state w) = true ->
+    root_of t = root_of w ->
+    vs_defaults (ss_vars (w_state t)) = vs_defaults (ss_vars (w_state w)) ->
+    exists j w', write_state panics sw w = Ok j
+      /\ load_state panics sw t j = (OOk tt, w')
+      /\ forall k f, flow_of (w_state w) k = Some f ->
+           flow_of (w_state w') k = Some (norm_flow sw (root_of w) (fl_cs (ss_flow (w_state w))) k f).
+Print Assumptions save_preserves_all_flows.
+
+(* (7d) PARTIAL behavioural statement: right after the load the restored story shows
+   what the original showed — every field that the host getters read (output stream,
+   hence current text and tags; pending choices with their visibility; the current
+   pointer, hence can_continue; evaluation stack; globals; visit / turn counts; seeds)
+   is the original's, values up to norm_value.  What is missing for the full property
+   is the bisimulation "the engine's step function respects norm_save" (not proved;
+   explored by the lock-step oracle of tools/props/c02.py). *)
+Theorem restored_state_immediate_partial :
+  forall panics sw t w,
+    wf_world_b w = true -> no_alias_entry_b (w_state w) = true ->
+    root_of t = root_of w ->
+    vs_defaults (ss_vars (w_state t)) = vs_defaults (ss_vars (w_state w)) ->
+    exists j w', write_state panics sw w = Ok j
+      /\ load_state panics sw t j = (OOk tt, w')
+      /\ let s := w_state w in let s' := w_state w' in
+         fl_name (ss_flow s') = fl_name (ss_flow s)
+         /\ fl_out (ss_flow s') = map (norm_obj sw) (fl_out (ss_flow s))
+         /\ map ch_text (fl_choices (ss_flow s')) = map ch_text (fl_choices (ss_flow s))
+         /\ map ch_tags (fl_choices (ss_flow s')) = map ch_tags (fl_choices (ss_flow s))
+         /\ map ch_invisible (fl_choices (ss_flow s'))
+            = map (fun c => ssw_invis_written sw && ssw_invis_read sw && ch_invisible c) (fl_choices (ss_flow s))
+         /\ (do e <- cs_cur_element (fl_cs (ss_flow s')); Ok (el_ptr e))
+            = (do e <- cs_cur_element (fl_cs (ss_flow s)); Ok (norm_ptr (el_ptr e)))
+         /\ ss_eval s' = map (norm_obj sw) (ss_eval s)
+         /\ vs_globals (ss_vars s') = norm_globals sw (vs_defaults (ss_vars (w_state t))) (vs_globals (ss_vars s))
+         /\ ss_visits s' = ss_visits s /\ ss_turns s' = ss_turns s /\ ss_turn s' = ss_turn s
+         /\ ss_seed s' = ss_seed s /\ ss_prev_random s' = ss_prev_random s.
+Proof. exact restored_state_immediate_partial_lemma. Qed.
+Check restored_state_immediate_partial :
+  forall panics sw t w,
+    wf_world_b w = true -> no_alias_entry_b (w_state w) = true ->
+    root_of t = root_of w ->
+    vs_defaults (ss_vars (w_state t)) = vs_defaults (ss_vars (w_state w)) ->
+    exists j w', write_state panics sw w = Ok j
+      /\ load_state panics sw t j = (OOk tt, w')
+      /\ let s := w_state w in let s' := w_state w' in
+         fl_name (ss_flow s') = fl_name (ss_flow s)
+         /\ fl_out (ss_flow s') = map (norm_obj sw) (fl_out (ss_flow s))
+         /\ map ch_text (fl_choices (ss_flow s')) = map ch_text (fl_choices (ss_flow s))
+         /\ map ch_tags (fl_choices (ss_flow s')) = map ch_tags (fl_choices (ss_flow s))
+         /\ map ch_invisible (fl_choices (ss_flow s'))
+            = map (fun c => ssw_invis_written sw && ssw_invis_read sw && ch_invisible c) (fl_choices (ss_flow s))
+         /\ (do e <- cs_cur_element (fl_cs (ss_flow s')); Ok (el_ptr e))
+            = (do e <- cs_cur_element (fl_cs (ss_flow s)); Ok (norm_ptr (el_ptr e)))
+         /\ ss_eval s' = map (norm_obj sw) (ss_eval s)
+         /\ vs_globals (ss_vars s') = norm_globals sw (vs_defaults (ss_vars (w_state t))) (vs_globals (ss_vars s))
+         /\ ss_visits s' = ss_visits s /\ ss_turns s' = ss_turns s /\ ss_turn s' = ss_turn s
+         /\ ss_seed s' = ss_seed s /\ ss_prev_random s' = ss_prev_random s.
+Print Assumptions restored_state_immediate_partial.
+
 (* the hypotheses are satisfiable: three reachable states (a pending fallback choice,
    an emptied list, a second flow at a choice point) are well-formed save points whose
    saves load into a fresh story *)
